@@ -39,6 +39,7 @@ inductive Call where
   | can (e : Nat) (r : Bool)
   | draw (d : Nat) | sel (k : Int)
   | spawn (p : Nat)
+  | wait (d : Nat)                -- `yield env.timeout(d)`
   | crash (e : Err)
   | bad                           -- an activation the kernel can never deliver in this state
   deriving DecidableEq, Repr, Inhabited
@@ -50,6 +51,7 @@ def Call.show : Call → String
   | .can e r => s!"can e{e} {if r then 1 else 0}"
   | .draw d => s!"draw {d}" | .sel k => s!"sel {k}"
   | .spawn p => s!"spawn p{p}"
+  | .wait d => s!"wait {d}"
   | .crash e => s!"crash {e.name}"
   | .bad => "BAD"
 
